@@ -43,7 +43,9 @@ RULE = ("collections of 1..6 rules drawn from {ok single condition, ok two condi
         "; round 5: stream 'templates' = rules with one item of every match form a text backend has a template for (startswith/endswith/contains plain "
         "and cased, re, cidr, exact, cased exact, wildcard, exists, null, compare, fieldref) plain (okmatch), below a NOT (oknotmatch) and below a NOT with a "
         "failing item (notmatchplaceholder), arranged with the other kinds in every position (all arrangements of length 2, sampled 3..5) x backends "
-        "{std, noteq, noteqfull (a dedicated negated template for every form), noin} x pipelines x error collection on/off")
+        "{std, noteq, noteqfull (a dedicated negated template for every form), noin} x pipelines x error collection on/off"
+        "; round 7: stream 'nest' = the arrangements under a pipeline that sets the state and fails rules inside a nested pipeline, with "
+        "state-conditioned field mappings inside and after the nest, x backends {std, state frame, noteq} x error collection on/off")
 ASSUMPTIONS = [
     "a backend that lacks a feature raises NotImplementedError, which pySigma deliberately does not collect: failure stages are the four the property names, all Sigma errors",
     "correlation rules are C09/C10's subject; here collections contain detection rules only",
@@ -121,7 +123,23 @@ PIPE_STRICT = {"name": "p", "priority": 10, "transformations": [
     {"id": "strict", "type": "strict_field_mapping_failure"},
     PIPE["transformations"][1],
 ]}
-PIPES = {False: PIPE_NOFAIL, True: PIPE, "add": PIPE_ADD, "state": PIPE_STATE, "strict": PIPE_STRICT}
+# round 7: the state is set (and a rule may fail) INSIDE a nested pipeline, whose ProcessingPipeline object lives as long as the
+# enclosing one; after the nest a field mapping and the query frame depend on the state.  What a rule (failing or not) left in
+# the nested pipeline must not reach a later rule.
+PIPE_NEST = {"name": "p", "priority": 10, "transformations": [
+    {"id": "nest", "type": "nest", "items": [
+        {"id": "n_h", "type": "set_state", "key": "idx", "val": "special", "rule_conditions": [{"type": "contains_field", "field": "h"}]},
+        {"id": "n_b", "type": "set_state", "key": "src", "val": "fromB", "rule_conditions": [{"type": "contains_field", "field": "fieldB"}]},
+        {"id": "n_f", "type": "set_state", "key": "idx", "val": "failing", "rule_conditions": [{"type": "logsource", "category": "fail"}]},
+        {"id": "n_f2", "type": "set_state", "key": "extra", "val": "left", "rule_conditions": [{"type": "logsource", "category": "fail"}]},
+        {"id": "n_map", "type": "field_name_mapping", "mapping": {"g": "gInner"}, "rule_conditions": [{"type": "processing_state", "key": "src", "val": "fromB"}]},
+        PIPE["transformations"][1],
+    ]},
+    {"id": "m_idx", "type": "field_name_mapping", "mapping": {"fieldA": "specialA"}, "rule_conditions": [{"type": "processing_state", "key": "idx", "val": "special"}]},
+    {"id": "m_fail", "type": "field_name_mapping", "mapping": {"fieldA": "failingA"}, "rule_conditions": [{"type": "processing_state", "key": "idx", "val": "failing"}]},
+    {"id": "m_extra", "type": "field_name_prefix", "prefix": "left.", "rule_conditions": [{"type": "processing_state", "key": "extra", "val": "left"}]},
+]}
+PIPES = {False: PIPE_NOFAIL, True: PIPE, "add": PIPE_ADD, "state": PIPE_STATE, "strict": PIPE_STRICT, "nest": PIPE_NEST}
 # backend variants: class attributes of a fresh TextQueryTestBackend subclass
 BACKENDS = {"std": {}, "noteq": {"convert_not_as_not_eq": True, "not_eq_token": "!="},
             "noin": {"convert_or_as_in": False, "convert_and_as_in": False},
@@ -231,6 +249,13 @@ def gen_cases(tier, seed, gen, effort):
                 continue
             for collect in (True, False):
                 cases.append({"kinds": list(a), "pipe": rnd5.choice([True, False, "add", "state"]), "collect": collect, "backend": be, "stream": "templates"})
+    # round 7: stream 'nest' (own random stream) - state set and failures raised inside a nested pipeline
+    rnd7 = random.Random(seed * 7121 + 87)
+    narrs = [a for n in (1, 2) for a in itertools.product(KINDS, repeat=n)]
+    narrs += [tuple(rnd7.choice(KINDS) for _ in range(rnd7.randint(3, 5))) for _ in range((150 if not thorough else 3000) * effort)]
+    for a in narrs:
+        for collect in (True, False):
+            cases.append({"kinds": list(a), "pipe": "nest", "collect": collect, "backend": rnd7.choice(["std", "state", "state", "noteq"]), "stream": "nest"})
     return cases, False
 
 
